@@ -302,9 +302,21 @@ fn impl_encode(data: &Data, type_name: &Ident, crate_path: &syn::Path) -> TokenS
 				Err(e) => return e.to_compile_error(),
 			};
 
-			// If the enum has no variants, we don't need to encode anything.
+			// If the enum has no variants to encode (none at all, or all of them skipped),
+			// nothing is written. The methods still have to be provided: the default
+			// `encode_to`, `using_encoded` and `encode` are defined in terms of each other.
 			if variants.is_empty() {
-				return quote!();
+				return quote! {
+					fn size_hint(&#self_) -> usize {
+						0_usize
+					}
+
+					fn encode_to<__CodecOutputEdqy: #crate_path::Output + ?::core::marker::Sized>(
+						&#self_,
+						_: &mut __CodecOutputEdqy
+					) {
+					}
+				};
 			}
 
 			let recurse = variants.iter().enumerate().map(|(i, f)| {
